@@ -5,7 +5,7 @@ CONSTANTS
   EmptyMode = "fixed"
   RstMode = "fixed"
   CfgSet <- KaCfgsQ
-  SameCfg = FALSE
+  SameCfg = TRUE
   Openers = {"A"}
   MaxOpens = 1
   Ids = {1}
